@@ -120,6 +120,23 @@ func main() {
 			}()
 			props[id](c, r)
 		}()
+		// anchor liveness: an obligation about a function nobody can reach holds vacuously
+		nLive, nAnch := 0, 0
+		for _, o := range r.Obls {
+			dead := w.unreachableAnchors(o.Anchors)
+			for _, a := range o.Anchors {
+				if w.Funcs[a] != nil {
+					nAnch++
+				}
+			}
+			nLive += 0
+			if len(dead) > 0 && o.Status == Discharged && livenessRules[o.Rule] {
+				o.Status = Violated
+				o.Message = fmt.Sprintf("the rule holds on %v, but no entry point (CLI, pipeline API, generators) can reach %s any more (static calls, interface dispatch by class hierarchy, function values): the mechanism this obligation is about is no longer part of gleece's behaviour", o.Anchors, strings.Join(dead, ", "))
+			}
+		}
+		r.count("anchor_functions_checked_reachable", nAnch)
+		r.count("functions_reachable_from_entry_points", len(w.reachable()))
 		stats := map[string]int{}
 		for k, v := range w.stats {
 			stats[k] = v
@@ -134,6 +151,10 @@ func main() {
 	}
 	os.Exit(exit)
 }
+
+// livenessRules: rule kinds that assert a mechanism inside their anchor functions (as
+// opposed to inventories of sites, for which dead code is harmless).
+var livenessRules = map[string]bool{"mustcall": true, "guardedby": true, "errprop": true, "each-iteration": true, "fieldflow": true, "co-mutation": true, "dedupe": true, "api-choice": true}
 
 func fail(ids []string, verif, msg string) {
 	os.MkdirAll(filepath.Join(verif, "replay"), 0o755)
